@@ -35,6 +35,46 @@ type edit struct {
 	off  int    // flip / trunc: byte offset inside the record (header included)
 	mask byte   // flip
 	inj  string // inject: alertw alertf hs0 ccs app
+	w    int    // setlen: width of the length field starting at off
+	op   string // setlen: p1 m1 p2 m2 zero max
+}
+
+// applySetLen rewrites the big-endian length field rec[off:off+w]; ok=false when the field is
+// out of range or the value does not change.
+func applySetLen(rec []byte, off, w int, op string) (out []byte, old, new int, ok bool) {
+	if off < 0 || w <= 0 || off+w > len(rec) {
+		return rec, 0, 0, false
+	}
+	max := 1<<(8*uint(w)) - 1
+	for _, b := range rec[off : off+w] {
+		old = old<<8 | int(b)
+	}
+	switch op {
+	case "p1":
+		new = old + 1
+	case "m1":
+		new = old - 1
+	case "p2":
+		new = old + 2
+	case "m2":
+		new = old - 2
+	case "zero":
+		new = 0
+	case "max":
+		new = max
+	default:
+		return rec, old, old, false
+	}
+	if new < 0 || new > max || new == old {
+		return rec, old, old, false
+	}
+	out = append([]byte(nil), rec...)
+	v := new
+	for i := w - 1; i >= 0; i-- {
+		out[off+i] = byte(v)
+		v >>= 8
+	}
+	return out, old, new, true
 }
 
 // recInfo is what the MITM saw of one honest record.
@@ -61,6 +101,8 @@ type mnet struct {
 	applied bool   // the edit found its target
 	stalled bool   // quiescence was detected
 	orig    byte   // flip: the original byte
+	lenOld  int    // setlen: old and new value of the length field
+	lenNew  int
 	target  []byte // the honest record the edit was applied to (copy)
 	hdrLen  int
 }
@@ -269,6 +311,11 @@ func (n *mnet) route(d, idx int, rec []byte) {
 			n.applied = false
 			put(rec)
 		}
+	case "setlen":
+		cp, old, nw, ok := applySetLen(rec, ed.off, ed.w, ed.op)
+		n.applied = ok
+		n.lenOld, n.lenNew = old, nw
+		put(cp)
 	case "drop":
 	case "dup":
 		put(rec)
